@@ -104,3 +104,35 @@ Proof.
   rewrite advance_eof. cbn [bind]. destruct (N.ltb_spec MAX_DEPTH (d + 1)); [reflexivity | lia].
 Qed.
 Print Assumptions C01_recursion_counted_where_the_source_counts.
+
+(* RUN-TIME VALUES ARE BOUNDED TOO (fix d4f0af3; before it `a = [1]; a = [a]; a = [a]; ...` grew a value one level per statement and
+   the recursive clone / comparison / drop of Value aborted the process after a few thousand statements - finding D24). Every list
+   and every map a program builds is nested at most MAX_VDEPTH deep, which is the parser's MAX_DEPTH, whatever the context held
+   and whatever the handlers returned; and the source does it where the model does (generated on every run from parser.rs). *)
+From EE Require Import Value Eval EvalLemmas.
+Theorem C01_built_values_are_bounded : forall b reenter es kvs c st v st1,
+  (exec b reenter (AList es) c st = (EOk v, st1) -> vdepth v <= MAX_VDEPTH) /\
+  (exec b reenter (AMap kvs) c st = (EOk v, st1) -> vdepth v <= MAX_VDEPTH) /\
+  MAX_VDEPTH = MAX_DEPTH /\ impl_value_bound_sites = (1, 1) /\ impl_value_bound_is_max_depth = true.
+Proof.
+  intros b reenter es kvs c st v st1. split; [|split; [|repeat split; reflexivity]].
+  - cbn [Eval.exec].
+    match goal with |- context [(fix go (l : list ast) (st : state) {struct l} := _) es st] =>
+      destruct ((fix go (l : list ast) (st : state) {struct l} := _) es st) as [[e1|vs] s1] eqn:Eg end.
+    + intros E. inversion E; subst. exfalso. exact (list_go_err_not_ok b reenter c _ _ _ _ Eg _ eq_refl).
+    + destruct (vbounded (VList vs)) eqn:B; intros E; inversion E; subst. apply N.leb_le. exact B.
+  - cbn [Eval.exec].
+    match goal with |- context [(fix go (l : list (ast * ast)) (st : state) {struct l} := _) kvs st] =>
+      destruct ((fix go (l : list (ast * ast)) (st : state) {struct l} := _) kvs st) as [[e1|m] s1] eqn:Eg end.
+    + intros E. inversion E; subst. exfalso. exact (map_go_err_not_ok b reenter c _ _ _ _ Eg _ eq_refl).
+    + destruct (vbounded (VMap m)) eqn:B; intros E; inversion E; subst. apply N.leb_le. exact B.
+Qed.
+Print Assumptions C01_built_values_are_bounded.
+(* non-vacuity: a list of depth 2 is built; the bound bites exactly one level above MAX_VDEPTH *)
+Example C01_value_bound_example :
+  vdepth (VList [VList [VNum (mkdec false 1 0)]; VNone]) = 2 /\ vbounded (VList [VNone]) = true /\
+  (forall v, vdepth v = MAX_VDEPTH -> vbounded v = true /\ vbounded (VList [v]) = false).
+Proof.
+  split; [reflexivity|]. split; [reflexivity|]. intros v H. unfold vbounded. cbn [vdepth]. rewrite H. split; reflexivity.
+Qed.
+Print Assumptions C01_value_bound_example.
